@@ -15,6 +15,8 @@ import (
 	"runtime/debug"
 	"strconv"
 	"strings"
+	"sync"
+	"sync/atomic"
 	"testing"
 	"time"
 
@@ -25,6 +27,8 @@ import (
 	"github.com/gr33nbl00d/caddy-revocation-validator/core/asn1parser"
 	"github.com/gr33nbl00d/caddy-revocation-validator/core/pemreader"
 	"github.com/gr33nbl00d/caddy-revocation-validator/crl/crlreader"
+	"github.com/gr33nbl00d/caddy-revocation-validator/crl/crlstore"
+	"go.uber.org/zap"
 	"pgregory.net/rapid"
 )
 
@@ -43,7 +47,7 @@ func (d *discard) StartUpdateCrl(*crlreader.CRLMetaInfo) error { d.started = tru
 func (d *discard) InsertRevokedCertificate(*crlreader.CRLEntry) error {
 	return nil
 }
-func (d *discard) UpdateExtendedMetaInfo(*crlreader.ExtendedCRLMetaInfo) error { return nil }
+func (d *discard) UpdateExtendedMetaInfo(*crlreader.ExtendedCRLMetaInfo) error  { return nil }
 func (d *discard) UpdateSignatureCertificate(*core.CertificateChainEntry) error { return nil }
 
 var tmpDir string
@@ -76,6 +80,19 @@ func baseSpec(t *rapid.T) (gen.CRLSpec, string) {
 	n := rapid.IntRange(0, 6).Draw(t, "bn")
 	for i := 0; i < n; i++ {
 		s.Entries = append(s.Entries, gen.DrawEntry(t, fmt.Sprintf("be%d", i), s.Version >= 0))
+	}
+	if s.Version >= 0 && len(s.Entries) > 0 && rapid.IntRange(0, 3).Draw(t, "bci") == 0 {
+		// certificateIssuer entry extension (indirect CRLs) with GeneralNames of every shape
+		shapes := [][]byte{
+			gen.TLV(0x30, gen.TLV(0xa4, gen.CN("indirect issuer").DER())),
+			gen.TLV(0x30, gen.TLV(0x86, []byte("http://ca.example.org/"))),
+			gen.TLV(0x30, gen.TLV(0x82, []byte("ca.example.org"))),
+			gen.TLV(0x30),
+			gen.TLV(0x30, gen.TLV(0x86, []byte("u")), gen.TLV(0xa4, gen.CN("second").DER())),
+			{0x05, 0x00},
+		}
+		i := rapid.IntRange(0, len(s.Entries)-1).Draw(t, "bcii")
+		s.Entries[i].Exts = append(s.Entries[i].Exts, gen.Ext{OID: "2.5.29.29", Critical: rapid.Bool().Draw(t, "bcic"), Value: rapid.SampledFrom(shapes).Draw(t, "bcis")})
 	}
 	if len(s.Entries) > 0 && rapid.IntRange(0, 5).Draw(t, "blarge") == 0 {
 		// production-size list: hostile fields are then followed by well over 64 KiB of real data
@@ -296,7 +313,7 @@ func genCRLCase(t *rapid.T) Case {
 
 func mutatePEM(t *rapid.T, der []byte) ([]byte, string) {
 	p := gen.PEMEncode(der, false)
-	kind := rapid.SampledFrom([]string{"no-final-newline", "cr-only", "long-line", "no-end", "no-begin", "garbage-line", "armour-flood", "blank-lines", "one-line", "lowercase-armour", "wrong-padding", "crlf-mixed"}).Draw(t, "pk")
+	kind := rapid.SampledFrom([]string{"no-final-newline", "cr-only", "long-line", "no-end", "no-begin", "garbage-line", "armour-flood", "blank-lines", "one-line", "lowercase-armour", "wrong-padding", "crlf-mixed", "dash-line", "dash-line"}).Draw(t, "pk")
 	switch kind {
 	case "no-final-newline":
 		p = bytes.TrimRight(p, "\n")
@@ -333,6 +350,26 @@ func mutatePEM(t *rapid.T, der []byte) ([]byte, string) {
 	case "wrong-padding":
 		p = bytes.ReplaceAll(p, []byte("="), []byte("A"))
 		p = bytes.Replace(p, []byte("\n-----END"), []byte("==\n-----END"), 1)
+	case "dash-line":
+		// a line that looks like (part of) an armour line somewhere in the body: 1..12 dashes, or dashes around a short text
+		lines := bytes.Split(p, []byte("\n"))
+		i := rapid.IntRange(0, len(lines)-1).Draw(t, "dl")
+		k := rapid.IntRange(1, 12).Draw(t, "dk")
+		l := bytes.Repeat([]byte("-"), k)
+		switch rapid.IntRange(0, 4).Draw(t, "dshape") {
+		case 1:
+			l = append(l, []byte("A")...)
+		case 2:
+			l = append([]byte("A"), l...)
+		case 3:
+			l = append(append(append([]byte{}, l...), 'A'), l...)
+		}
+		if rapid.Bool().Draw(t, "dcr") {
+			l = append(l, '\r')
+		}
+		lines = append(lines[:i], append([][]byte{l}, lines[i:]...)...)
+		p = bytes.Join(lines, []byte("\n"))
+		return p, fmt.Sprintf("dash-line-%d", k)
 	case "crlf-mixed":
 		lines := bytes.Split(p, []byte("\n"))
 		for i := range lines {
@@ -397,7 +434,21 @@ func pkiOnce() {
 const watchdog = 30 * time.Second
 
 // guarded runs f and reports panic / hang / allocation.
+var storeSeq atomic.Int64
+
+var storeFactory = sync.OnceValue(func() crlstore.Factory {
+	f, err := crlstore.CreateStoreFactory(crlstore.Map, tmpDir, zap.NewNop())
+	if err != nil {
+		panic(err)
+	}
+	return f
+})
+
 func guarded(inputLen int, f func()) error {
+	return guardedWith(inputLen, uint64(4<<20)+64*uint64(inputLen), f)
+}
+
+func guardedWith(inputLen int, bound uint64, f func()) error {
 	var before, after runtime.MemStats
 	done := make(chan error, 1)
 	runtime.ReadMemStats(&before)
@@ -421,7 +472,6 @@ func guarded(inputLen int, f func()) error {
 	}
 	runtime.ReadMemStats(&after)
 	alloc := after.TotalAlloc - before.TotalAlloc
-	bound := uint64(4<<20) + 64*uint64(inputLen)
 	if alloc > bound {
 		return fmt.Errorf("allocated %d bytes for a %d byte input (bound %d): allocation not backed by input data", alloc, inputLen, bound)
 	}
@@ -487,6 +537,27 @@ func runCase(c Case, x *ev.Ctx) error {
 		}
 		if rerr == nil {
 			x.Class("crl/accepted")
+		}
+		// the same bytes through the pipeline a fetched list really takes: reader -> persisting processor -> store
+		// (memory back-end). Whatever the reader hands out, the store must take or refuse it without crashing.
+		if d.started {
+			st, serr := storeFactory().CreateStore(fmt.Sprintf("c07-%d", storeSeq.Add(1)), true)
+			if serr != nil {
+				panic(serr)
+			}
+			var perr error
+			err := guardedWith(len(c.Data), 64<<20+512*uint64(len(c.Data)), func() {
+				_, perr = crlreader.StreamingCRLFileReader{}.ReadCRL(crlstore.CRLPersisterProcessor{CRLStore: st}, p)
+			})
+			st.Close()
+			st.Delete()
+			if err != nil {
+				return fmt.Errorf("reader -> store pipeline on %d hostile bytes (%s %s): %v", len(c.Data), c.Kind, c.Note, err)
+			}
+			x.Class("crl/through-store")
+			if perr == nil {
+				x.Class("crl/stored")
+			}
 		}
 		if prepassOK(c.Data) || c.Kind == "alg-swap" {
 			x.Class("crl/reached-main-pass")
@@ -577,14 +648,14 @@ var spec = ev.Spec[Case]{
 	Gen:      genCase,
 	Run:      runCase,
 	Inflight: true,
-	Rule: "rapid draws hostile inputs for four entry points: ReadCRL on a file (random bytes; every-position truncations of valid DER/PEM CRLs; structure-aware tree mutations of a valid CRL that keep enclosing lengths consistent: hostile length forms 0x80..0x8F/2^31/2^63/2^64-1/negative, tag swaps, length +-delta, dropped content, nesting up to 2000, duplicate/delete/empty; per-field hostile lengths; PEM armour/line/newline damage incl. armour floods), the chain matcher with mutated AKI values, ParseRDNSequence (differential with encoding/asn1) and PemReader. Oracle inside the target: no panic, result within 30 s, TotalAlloc delta <= 4 MiB + 64*len(input), max stack 16 MiB. Non-trivial: the input passes the reader's algorithm pre-pass (so the main pass runs) / the AKI value decodes / the bytes start a SEQUENCE / contain armour; distinct by (kind, mutation, size bucket).",
+	Rule:     "rapid draws hostile inputs for four entry points: ReadCRL on a file (random bytes; every-position truncations of valid DER/PEM CRLs; structure-aware tree mutations of a valid CRL that keep enclosing lengths consistent: hostile length forms 0x80..0x8F/2^31/2^63/2^64-1/negative, tag swaps, length +-delta, dropped content, nesting up to 2000, duplicate/delete/empty; per-field hostile lengths; PEM armour/line/newline damage incl. armour floods and lines of 1..12 dashes with or without text; entries carrying a certificateIssuer extension with GeneralNames of every shape), the chain matcher with mutated AKI values, ParseRDNSequence (differential with encoding/asn1) and PemReader. Oracle inside the target: no panic, result within 30 s, TotalAlloc delta <= 4 MiB + 64*len(input), max stack 16 MiB; every input whose header the reader accepts is additionally pushed through the real pipeline reader -> persisting processor -> memory store (no panic, result within 30 s, TotalAlloc delta <= 64 MiB + 512*len(input)). Non-trivial: the input passes the reader's algorithm pre-pass (so the main pass runs) / the AKI value decodes / the bytes start a SEQUENCE / contain armour; distinct by (kind, mutation, size bucket).",
 	Assumptions: []string{
 		"runtime.MemStats.TotalAlloc measures allocation of the call (no other goroutine allocates during a case)",
 		"the stack cap (debug.SetMaxStack 16 MiB) is far above what any well-formed CRL needs",
 	},
 }
 
-func TestProp(t *testing.T)   { ev.Check(t, spec) }
+func TestProp(t *testing.T) { ev.Check(t, spec) }
 func TestReplay(t *testing.T) {
 	// a crasher saved by the native fuzzer ("go test fuzz v1" corpus file) is replayed as a crl case
 	if p := os.Getenv("VERIF_REPLAY"); p != "" {
